@@ -36,6 +36,44 @@ Proof.
   - destruct (i_vars_inj _ _ HI _ _ _ _ _ Hv Hv'). contradiction.
 Qed.
 
+Lemma copy_inv s ths t th0 th' a t' d :
+  Inv s ths -> nth_error ths t = Some th0 ->
+  hm (cur th0) = None -> hb (cur th0) = None -> (forall s1, pend s1 (cur th0) = 0%Z) ->
+  hm (cur th') = None -> hb (cur th') = None -> (forall s1, pend s1 (cur th') = 0%Z) ->
+  (forall s', local s' t (cur th')) ->
+  Inv (do_copy t s a t' d) (upd_nth ths t th').
+Proof.
+  intros HI Ht Hm0 Hb0 Hp0 Hm1 Hb1 Hp1 Hl.
+  assert (Hskip : Inv s (upd_nth ths t th')).
+  { eapply inv_pc_only; [exact HI|exact Ht|congruence|congruence|now rewrite Hp0, Hp1|apply Hl]. }
+  unfold do_copy.
+  destruct (vars s t a) as [hs|] eqn:Es; [|exact Hskip].
+  destruct (vars s t' d) eqn:Ev; [exact Hskip|].
+  destruct (hptr s hs) as [m|] eqn:Eh; [|exact Hskip].
+  destruct (handle_facts _ _ _ _ _ _ HI Es Eh) as (Hin & Hne & Hal & Hd0).
+  destruct (inv_new_handle s ths t' d HI Ev) as [HI1 [Hb1' Hb2]].
+  unfold new_handle. cbn [fst snd].
+  refine (inv_register (snd (new_handle s t' d)) ths t _ th' (nh s) m HI1 Ht Hb1' _ Hal Hd0 _ _ _ _ Hl).
+  - destruct Hb2 as [v Hv]. now exists t', v.
+  - intros i p Ha Hn. apply (others_not_building s ths t i p (nh s) HI Ha Hn). left. apply le_n.
+  - right. now repeat split.
+  - congruence.
+  - intros s1 s2. now rewrite Hp0, Hp1.
+Qed.
+
+Lemma drop_inv s ths t th0 a rest s' th' :
+  Inv s ths -> nth_error ths t = Some th0 ->
+  hm (cur th0) = None -> hb (cur th0) = None -> (forall s1, pend s1 (cur th0) = 0%Z) ->
+  do_drop fixed t s a rest = (s', th') -> Inv s' (upd_nth ths t th').
+Proof.
+  intros HI Ht Hm0 Hb0 Hp0 Hs. unfold do_drop in Hs.
+  destruct (vars s t a) as [h|] eqn:Ev.
+  - cbn [hptr set_vars] in Hs. destruct (hptr s h) as [m|] eqn:Eh.
+    + cbn in Hs. inversion Hs; subst. exact (inv_drop s ths t _ rest a h m HI Ht Hm0 Hb0 Hp0 Ev Eh).
+    + inversion Hs; subst. exact (inv_unbind_null s ths t _ rest a h HI Ht Hm0 Hb0 Hp0 Ev Eh).
+  - inversion Hs; subst. eapply inv_pc_only; [exact HI|exact Ht|now rewrite Hm0|now rewrite Hb0|now rewrite Hp0|exact I].
+Qed.
+
 Ltac skip_step HI Ht :=
   eapply inv_pc_only; [exact HI|exact Ht|reflexivity|reflexivity|reflexivity|exact I].
 
@@ -45,46 +83,27 @@ Proof.
   intros HI Ht Hs. destruct th as [rest p].
   pose proof (i_local _ _ HI t _ (at_thr_self _ _ _ Ht)) as Hl. cbn [cur] in Hl.
   unfold tstep in Hs. cbn [cur prog] in Hs.
-  destruct p as [|h b sz|h b m sz|sz|sz v| |h m|m [[|]|]|m|m b [[|]|]|m b|m b v|m b|m]; cbn [local] in Hl; try contradiction.
+  destruct p as [|h b sz d|h b m sz d|sz d|sz v d|d|d|h m|m [[|]|]|m|m b [[|]|]|m b|m b v|m b|m]; cbn [local] in Hl; try contradiction.
   - (* PIdle *)
     destruct rest as [|o rest'].
     { inversion Hs; subst. rewrite (upd_nth_id _ _ _ Ht). exact HI. }
     unfold start_op in Hs. destruct o as [dst size|src dst|src t' dst|src dst|v].
     + (* malloc *)
-      destruct (vars s t dst) eqn:Ev; [inversion Hs; subst; skip_step HI Ht|].
+      destruct (vars s t (uv dst)) eqn:Ev; [inversion Hs; subst; skip_step HI Ht|].
+      destruct (vars s t (tv dst)) eqn:Ev2; [inversion Hs; subst; skip_step HI Ht|].
       destruct (size <=? 0)%Z; [inversion Hs; subst; skip_step HI Ht|].
-      destruct (inv_new_handle s ths t dst HI Ev) as [HI1 Hb1].
+      destruct (inv_new_handle s ths t (uv dst) HI Ev) as [HI1 Hb1].
       unfold new_handle in Hs. cbn in Hs. inversion Hs; subst.
-      exact (inv_alloc_buffer (snd (new_handle s t dst)) ths t _ rest' (nh s) size HI1 Ht eq_refl Hb1).
+      exact (inv_alloc_buffer (snd (new_handle s t (uv dst))) ths t _ rest' (nh s) size dst HI1 Ht eq_refl Hb1).
     + (* copy *)
-      destruct (vars s t src) as [hs|] eqn:Es; [|inversion Hs; subst; skip_step HI Ht].
-      destruct (vars s t dst) eqn:Ev; [inversion Hs; subst; skip_step HI Ht|].
-      destruct (hptr s hs) as [m|] eqn:Eh; [|inversion Hs; subst; skip_step HI Ht].
-      destruct (handle_facts _ _ _ _ _ _ HI Es Eh) as (Hin & Hne & Hal & Hd0).
-      destruct (inv_new_handle s ths t dst HI Ev) as [HI1 [Hb1 Hb2]].
-      unfold new_handle in Hs. cbn in Hs. inversion Hs; subst.
-      refine (inv_register (snd (new_handle s t dst)) ths t _ (at_pc PIdle rest') (nh s) m HI1 Ht Hb1 _ Hal Hd0 _ _ eq_refl _ _).
-      * destruct Hb2 as [v Hv]. now exists t, v.
-      * intros i p Ha Hn. eapply (others_not_building s); eauto.
-      * right. now repeat split.
-      * reflexivity.
-      * intros; exact I.
+      inversion Hs; subst.
+      apply (copy_inv s ths t _ (at_pc PIdle rest') (uv src) t (uv dst) HI Ht); try reflexivity; try (intros; exact I).
     + (* hand over *)
-      destruct (vars s t src) as [hs|] eqn:Es; [|inversion Hs; subst; skip_step HI Ht].
-      destruct (vars s t' dst) eqn:Ev; [inversion Hs; subst; skip_step HI Ht|].
-      destruct (hptr s hs) as [m|] eqn:Eh; [|inversion Hs; subst; skip_step HI Ht].
-      destruct (handle_facts _ _ _ _ _ _ HI Es Eh) as (Hin & Hne & Hal & Hd0).
-      destruct (inv_new_handle s ths t' dst HI Ev) as [HI1 [Hb1 Hb2]].
-      unfold new_handle in Hs. cbn in Hs. inversion Hs; subst.
-      refine (inv_register (snd (new_handle s t' dst)) ths t _ (at_pc PIdle rest') (nh s) m HI1 Ht Hb1 _ Hal Hd0 _ _ eq_refl _ _).
-      * destruct Hb2 as [v Hv]. now exists t', v.
-      * intros i p Ha Hn. eapply (others_not_building s); eauto.
-      * right. now repeat split.
-      * reflexivity.
-      * intros; exact I.
+      inversion Hs; subst.
+      apply (copy_inv s ths t _ (at_pc PIdle rest') (uv src) t' (uv dst) HI Ht); try reflexivity; try (intros; exact I).
     + (* slice *)
-      destruct (vars s t src) as [hs|] eqn:Es; [|inversion Hs; subst; skip_step HI Ht].
-      destruct (vars s t dst) eqn:Ev; [inversion Hs; subst; skip_step HI Ht|].
+      destruct (vars s t (uv src)) as [hs|] eqn:Es; [|inversion Hs; subst; skip_step HI Ht].
+      destruct (vars s t (uv dst)) eqn:Ev; [inversion Hs; subst; skip_step HI Ht|].
       destruct (hptr s hs) as [m|] eqn:Eh; [|inversion Hs; subst; skip_step HI Ht].
       destruct (handle_facts _ _ _ _ _ _ HI Es Eh) as (Hin & Hne & Hal & Hd0).
       cbn [mbuf flag set_ub] in Hs.
@@ -93,9 +112,9 @@ Proof.
       assert (Hbne : bring s b <> []).
       { intros E. assert (Hi : In m (bring s b)) by (apply (i_bring _ _ HI); now repeat split). rewrite E in Hi. destruct Hi. }
       set (s0 := flag s (negb (malive s m))) in *.
-      destruct (inv_new_handle s0 ths t dst HI0 Ev) as [HI1 Hb1].
+      destruct (inv_new_handle s0 ths t (uv dst) HI0 Ev) as [HI1 Hb1].
       unfold new_handle, new_memory in Hs. cbn in Hs. inversion Hs; subst.
-      refine (inv_new_memory (snd (new_handle s0 t dst)) ths t _ (at_pc (PSl1 (nh s) (nm s)) rest') b HI1 Ht eq_refl eq_refl eq_refl _ _ _).
+      refine (inv_new_memory (snd (new_handle s0 t (uv dst))) ths t _ (at_pc (PSl1 (nh s) (nm s)) rest') b HI1 Ht eq_refl eq_refl eq_refl _ _ _).
       * right. split; [reflexivity|exact Hbne].
       * reflexivity.
       * cbn [cur local]. split.
@@ -104,14 +123,11 @@ Proof.
            unfold mheld, new_memory, new_handle. cbn. rewrite upd_same. repeat split; [exact Hmr|].
            apply (i_mfresh _ _ HI). lia.
     + (* delete *)
-      destruct (vars s t v) as [h|] eqn:Ev; [|inversion Hs; subst; skip_step HI Ht].
-      cbn [hptr set_vars] in Hs. destruct (hptr s h) as [m|] eqn:Eh.
-      * cbn in Hs. inversion Hs; subst. exact (inv_drop s ths t _ rest' v h m HI Ht eq_refl Ev Eh).
-      * inversion Hs; subst. exact (inv_unbind_null s ths t _ rest' v h HI Ht eq_refl Ev Eh).
+      apply (drop_inv s ths t _ (uv v) rest' s' th' HI Ht); try reflexivity. exact Hs.
   - (* PMal1 *)
     destruct Hl as [Hbld (Hbal & Hbr & Hbd)].
     unfold new_memory in Hs. cbn in Hs. inversion Hs; subst.
-    refine (inv_new_memory s ths t _ (at_pc (PMal2 h b (nm s) sz) rest) b HI Ht eq_refl eq_refl eq_refl _ _ _).
+    refine (inv_new_memory s ths t _ (at_pc (PMal2 h b (nm s) sz d) rest) b HI Ht eq_refl eq_refl eq_refl _ _ _).
     + left. split; [reflexivity|exact Hbd].
     + reflexivity.
     + cbn [cur local]. split.
@@ -120,16 +136,19 @@ Proof.
         unfold mheld, new_memory. cbn. rewrite upd_same. repeat split; [exact Hmr|]. apply (i_mfresh _ _ HI). lia.
   - (* PMal2 *)
     destruct Hl as [[Hh [v Hv]] (Hal & Hmr & Hd0)]. inversion Hs; subst.
-    refine (inv_register s ths t _ (at_pc (PMal3 sz) rest) h m HI Ht Hh _ Hal Hd0 _ _ eq_refl _ _).
+    refine (inv_register s ths t _ (at_pc (PMal3 sz d) rest) h m HI Ht Hh _ Hal Hd0 _ _ eq_refl _ _).
     + now exists t, v.
     + intros i p Ha Hn. eapply (others_not_building s); eauto.
     + left. now split.
     + reflexivity.
     + intros; exact I.
   - (* PMal3 *)
-    cbn in Hs. inversion Hs; subst. exact (inv_bytes_add s ths t _ rest sz HI Ht eq_refl).
+    cbn in Hs. inversion Hs; subst. exact (inv_bytes_add s ths t _ rest sz d HI Ht eq_refl).
   - (* PMalEnd *)
-    inversion Hs; subst. skip_step HI Ht.
+    inversion Hs; subst.
+    apply (copy_inv s ths t _ (at_pc (PMalRet d) rest) (uv d) t (tv d) HI Ht); try reflexivity; try (intros; exact I).
+  - (* PMalRet *)
+    apply (drop_inv s ths t _ (tv d) rest s' th' HI Ht); try reflexivity. exact Hs.
   - (* PSl1 *)
     destruct Hl as [[Hh [v Hv]] (Hal & Hmr & Hd0)]. inversion Hs; subst.
     refine (inv_register s ths t _ (at_pc PIdle rest) h m HI Ht Hh _ Hal Hd0 _ _ eq_refl _ _).
